@@ -409,7 +409,7 @@ def run(ck):
     # proof-only modules that need Mathlib (not imported by the driver): the chord-error lemma over the reals, and
     # monotonicity / idempotence of the model's concrete rounding functions => C13_increasing for the IEEE instance
     extra_thms = []
-    for mod, nmin in (('MpVerif.C13.PropsGen', 15), ('MpVerif.C13.PropsIEEE', 8), ('MpVerif.C13.Chord', 5), ('MpVerif.C13.ChordRun', 5)):
+    for mod, nmin in (('MpVerif.C13.PropsGen', 15), ('MpVerif.C13.PropsIEEE', 8), ('MpVerif.C13.Chord', 5), ('MpVerif.C13.ChordRun', 5), ('MpVerif.C13.ChordApprox', 4)):
         okm, outm = ck.lake([mod])
         if not okm:
             bad_decls = ck.failing_decls(outm, mod.replace('.', '/') + '.lean')
@@ -428,9 +428,9 @@ def run(ck):
             ck.cov['discharged'] = ck.cov.get('discharged', 0) + len(th)
             extra_thms += [n for n, _ in th]
     ck.cov['theorems'] = ck.cov.get('theorems', []) + extra_thms
-    ck.cov['checker_cmd'] = ck.cov.get('checker_cmd', '') + ' ; same for MpVerif.C13.PropsGen (definitions regenerated by translators/gen_c13.py), MpVerif.C13.PropsIEEE, MpVerif.C13.Chord and MpVerif.C13.ChordRun'
+    ck.cov['checker_cmd'] = ck.cov.get('checker_cmd', '') + ' ; same for MpVerif.C13.PropsGen (definitions regenerated by translators/gen_c13.py), MpVerif.C13.PropsIEEE, MpVerif.C13.Chord, MpVerif.C13.ChordRun and MpVerif.C13.ChordApprox'
     if ck.tier == 'thorough' and proof_ok:
-        bad = ck.leanchecker(['MpVerif.C13.Props', 'MpVerif.C13.PropsGen', 'MpVerif.C13.PropsIEEE', 'MpVerif.C13.Chord', 'MpVerif.C13.ChordRun'])
+        bad = ck.leanchecker(['MpVerif.C13.Props', 'MpVerif.C13.PropsGen', 'MpVerif.C13.PropsIEEE', 'MpVerif.C13.Chord', 'MpVerif.C13.ChordRun', 'MpVerif.C13.ChordApprox'])
         if bad:
             failing += ['leanchecker rejected %s' % m for m in bad]
             proof_ok = False
